@@ -68,6 +68,7 @@ type astEnv struct {
 	info    *types.Info
 	old     *oldCtx
 	results []Value
+	loop    *loopInfo // the loop whose invariant is being evaluated (range key resolution)
 }
 
 func (e *Exec) snapshot(s *State) *State {
@@ -133,7 +134,7 @@ func (e *Exec) evalClauseEnvRes(s *State, f *Frame, cl *Clause, env map[types.Ob
 }
 
 func (e *Exec) evalClauseValEnv(s *State, f *Frame, cl *Clause, env map[types.Object]Value, old *oldCtx, results []Value) Value {
-	ev := &astEnv{e: e, s: s, f: f, vars: env, info: cl.Info, old: old, results: results, bound: map[types.Object]Value{}}
+	ev := &astEnv{e: e, s: s, f: f, vars: env, info: cl.Info, old: old, results: results, bound: map[types.Object]Value{}, loop: e.curLoop}
 	s.pure++
 	defer func() { s.pure-- }()
 	return ev.eval(cl.Expr)
@@ -156,6 +157,12 @@ func (ev *astEnv) lookupVar(obj types.Object) Value {
 		return v
 	}
 	e := ev.e
+	if ev.loop != nil && ev.loop.rangeKey == obj && ev.f != nil {
+		// at the header of `for i := range ...` the key denotes the number of completed iterations
+		if pv, ok := ev.f.env[ev.loop.rangeIdx].(*PtrV); ok {
+			return e.c.Add(e.load(ev.s, pv.Ref).(*Term), BVConst(1, 64))
+		}
+	}
 	switch o := obj.(type) {
 	case *types.Var:
 		if o.Parent() == o.Pkg().Scope() {
